@@ -72,7 +72,9 @@ class Sched:
         if phase == "before":
             self._park(a, op)
         else:
-            # track descriptors for kill()
+            # track descriptors for kill(); forget them when the actor closes the file (the number may be reused)
+            if op.name == "close" and op.exc is None:
+                a.fds = {fd for fd in a.fds if self._fd_is_open(fd)}
             if op.name in ("os.open", "mkstemp") and op.exc is None:
                 fd = op.res[0] if isinstance(op.res, tuple) else op.res
                 if isinstance(fd, int):
@@ -82,6 +84,14 @@ class Sched:
                     a.fds.add(op.res.fileno())
                 except Exception:
                     pass
+
+    @staticmethod
+    def _fd_is_open(fd):
+        try:
+            os.fstat(fd)
+            return True
+        except OSError:
+            return False
 
     def _flock(self, real, fd, how, p):
         a = getattr(self._tl, "actor", None)
